@@ -202,6 +202,9 @@ func NewProofCommit(key *gabikeys.PublicKey, witn *Witness, randomizer *big.Int)
 // SetExpected sets certain values of the proof to expected values, inferred from the containing proofs,
 // before verification.
 func (p *Proof) SetExpected(pk *gabikeys.PublicKey, challenge, response *big.Int) error {
+	if p.SignedAccumulator == nil || p.Responses == nil {
+		return errors.New("incomplete nonrevocation proof")
+	}
 	acc, err := p.SignedAccumulator.UnmarshalVerify(pk)
 	if err != nil {
 		return err
@@ -209,6 +212,11 @@ func (p *Proof) SetExpected(pk *gabikeys.PublicKey, challenge, response *big.Int
 	p.Nu = acc.Nu
 	p.Challenge = challenge
 	p.Responses["alpha"] = response
+	// The proof comes from the network: refuse it here, before its parts are used to reconstruct
+	// the commitments, if any of them is missing.
+	if !proofstructure.verifyProofStructure((*proof)(p)) {
+		return errors.New("incomplete nonrevocation proof")
+	}
 	return nil
 }
 
